@@ -83,6 +83,12 @@ def gen_key(rng, unicode, prefix, used):
             k = "END" if rng.random() < 0.5 else b"VALUE"
         else:
             k = "".join(chr(rng.randrange(0x21, 0x7F)) for _ in range(rng.randrange(1, 30)))
+        if prefix and len(prefix) < 100 and rng.random() < 0.15:
+            # a key that itself begins with the configured prefix: the prefix is still applied on the wire
+            try:
+                k = (prefix + k) if isinstance(k, bytes) else (prefix.decode("ascii") + k)
+            except UnicodeDecodeError:
+                pass
         ok, wire = refs.key_legal(k, unicode, prefix)
         if ok and wire and wire not in used:
             used.add(wire)
@@ -106,7 +112,8 @@ def gen_value(rng, serde_name, tier):
         if c == 3 and serde_name != "custom":
             return rng.choice([0, 7, -12, 10 ** 30])
         if c == 4:
-            big = 65536 if rng.random() < 0.8 or tier == "quick" else (1 << 20)
+            # up to the item limit (1 MiB) minus room for what a custom serde / append composition adds
+            big = 65536 if rng.random() < 0.8 or tier == "quick" else (1 << 20) - 64
             return (bytes(range(256)) * (big // 256 + 1))[:big]
         if c == 5:
             return bytes(rng.choice(b"\r\n EDNVALU") for _ in range(rng.randrange(1, 60)))
